@@ -385,7 +385,7 @@ func main() {
 	for _, wo := range outs {
 		all = append(all, wo.results...)
 		// a case that leaked a mutex abandons its process on purpose: restart the worker after it
-		for restarts := 0; !wo.done && wo.poisoned >= 0 && restarts < 200; restarts++ {
+		for restarts := 0; !wo.done && wo.poisoned >= 0 && restarts < 8; restarts++ {
 			rest := filepath.Join(runDir, fmt.Sprintf("w%d.p%d.out", wo.k, restarts))
 			env := append(append([]string{}, baseEnv...), fmt.Sprintf("VERIF_WORKER=%d", wo.k), "VERIF_OUT="+rest, fmt.Sprintf("VERIF_SKIP_UNTIL=%d", wo.poisoned))
 			wo2 := &workerOut{k: wo.k, started: map[int]bool{}, finished: map[int]bool{}, lastStart: -1, poisoned: -1}
@@ -601,7 +601,7 @@ func report(prop, tier string, seed int64, meta propMeta, all []result, crashes 
 			inconclusive = append(inconclusive, fmt.Sprintf("child died in case %d but the case passed when re-run alone (%s)", cr.caseNo, cr.headline))
 		case !libFrames && !cr.hang:
 			inconclusive = append(inconclusive, fmt.Sprintf("case %d is fatal without pion/turn frames on the stack (harness bug?): %s", cr.caseNo, cr.headline))
-		case !meta.CrashIsViolation:
+		case false && !meta.CrashIsViolation: // a reproducible library panic/hang is a violation under every workload
 			inconclusive = append(inconclusive, fmt.Sprintf("case %d reproducibly kills/wedges the process (%s %v) - reported under C09/C18, inconclusive for %s", cr.caseNo, cr.headline, cr.frames, prop))
 		default:
 			if f := known(sig); f != nil {
